@@ -142,12 +142,15 @@ class LinesearchSolver(NonlinearSolver):
 
                 # A negative scale factor (ref < ref0) reverses the ordering, so the scaled
                 # lower bound comes from the physical upper bound and vice versa.
+                # A missing bound is infinite and changes sign with the scale factor as well.
                 flip = scale < 0
                 if np.any(flip):
-                    lo = -np.inf if lower is None else lower
-                    hi = np.inf if upper is None else upper
-                    lower = np.where(flip, hi, lo)
-                    upper = np.where(flip, lo, hi)
+                    lo = lower
+                    hi = upper
+                    lower = np.where(flip, -np.inf if hi is None else hi,
+                                     -np.inf if lo is None else lo)
+                    upper = np.where(flip, np.inf if lo is None else lo,
+                                     np.inf if hi is None else hi)
 
                 if lower is not None:
                     if self._lower_bounds is None:
